@@ -139,7 +139,16 @@ def probe_bt2(ctx, payload):
         ctx.violation("bt-part==bt-full", "bt2", payload, dict(full=exc_detail(a.exc) if a.exc else "ok",
                                                                 part=exc_detail(b.exc) if b.exc else "ok"), "BradleyTerryPart", reg)
     elif a.exc is None:
-        d = max(_rel(x, y) for ta, tb in zip(a.res, b.res) for pa, pb in zip(ta, tb) for x, y in zip(pa, pb))
+        # mu: 1e-12 relative.  sigma: 1e-12 relative OR 1e-12 absolute on rho = (sigma_post/sigma_inflated)^2 - just above
+        # the kappa floor the variance factor 1 - share*delta is a difference of nearly equal numbers, so a last-bit
+        # difference between the copies is amplified by 1/factor in sigma (conditioning, not a divergence of the copies)
+        d = 0.0
+        for ta, tb, tp in zip(a.res, b.res, a.pri):
+            for pa, pb, pr in zip(ta, tb, tp):
+                d = max(d, _rel(pa[0], pb[0]))
+                infl = pr[1] * pr[1] + a.tau * a.tau
+                drho = abs(pa[1] * pa[1] - pb[1] * pb[1]) / infl if infl > 0 else 0.0
+                d = max(d, min(_rel(pa[1], pb[1]), drho))
         if d > 1e-12:
             ctx.violation("bt-part==bt-full", "bt2", payload, dict(full=a.res, part=b.res, rel=d), "BradleyTerryPart", reg)
         elif d > 0:
